@@ -41,6 +41,51 @@ def gen_seq(r):
     return [gen_outcome(r, cls) for _ in range(n)]
 
 
+WORDS = ["region", "is", "not", "allowed", "by", "the", "organisation", "policy", "waiting", "for", "instance",
+         "to", "become", "ready", "quota", "exceeded", "in", "zone", "Æther", "naïve", "x, y", "timeout", "429",
+         "admission", "webhook", "denied", "request", ":", "spec.replicas", "must", "be", ">=", "1"]
+
+
+def long_message(r, stem, i, size):
+    """a distinct, realistic message of roughly `size` characters (item name first, as a per-item failure reads)"""
+    text = f"{stem}-{i:03d}:"
+    while len(text) < size:
+        text += " " + r.choice(WORDS)
+    return text
+
+
+def gen_long_seq(r):
+    """The 'many / long messages' dimension: what a forEach over dozens of items, or a few server / CEL error
+    texts, hands to combine.  Up to 100 outcomes, messages from a few to ~900 characters, mostly several
+    outcomes of one error class (the class whose messages must all be kept) among outcomes of other classes."""
+    n = r.choice([2, 3, 5, 8, 16, 24, 40, 64, 100])
+    style = r.choice(["short", "medium", "medium", "long", "mixed"])
+    sizes = {"short": (4, 14), "medium": (40, 90), "long": (200, 900), "mixed": (4, 900)}[style]
+    top = r.choice(["retry", "permFail", "permFail", None])
+    seq = []
+    for i in range(n):
+        if top is not None and r.random() < 0.7:
+            c = top
+        else:
+            c = r.choice(["depSkip", "skip", "ok", "retry", "permFail"])
+        o = {"c": c, "l": r.choice(LOCS + [f"step[{i}]"])}
+        if c == "ok":
+            o["v"] = r.choice(VALS)
+        else:
+            o["m"] = r.choice(MSGS) if r.random() < 0.1 else long_message(r, c, i, r.randint(*sizes))
+            if c == "retry":
+                o["d"] = r.choice([0, 1, 5, 30, 60, 61, 3600]) + r.randint(0, 3)
+        seq.append(o)
+    return seq
+
+
+def size_bucket(n):
+    for b in (16, 64, 256, 1024, 4096, 16384):
+        if n <= b:
+            return f"<={b}"
+    return ">16384"
+
+
 def to_impl(o, result):
     c = o["c"]
     if c == "ok":
@@ -352,15 +397,34 @@ def foreach_items_clause(ck, r, tier):
                                        trigger=celpy.json_to_cel({}), workflow=wf)
         return ku.outcome_obs(res.result)
 
+    def gen_many_items(rb):
+        """a forEach over dozens of items, most of them waiting / failed with a sentence-long message of their
+        own (every message starts with the item's name and ends with its number: none is part of another)"""
+        k = rb.randint(12, 48)
+        top = rb.choice(["retry", "perm"])
+        size = rb.choice([(20, 40), (50, 90), (50, 90), (120, 300)])
+        items = []
+        for i in range(k):
+            kind = top if rb.random() < 0.8 else rb.choice(["ok", "skip", "retry"] + (["perm"] if top == "perm" else []))
+            items.append({"kind": kind, "delay": rb.choice(delays),
+                          "msg": long_message(rb, f"item-{kind}", i, rb.randint(*size)) + f" (#{i:03d})"})
+        return items
+
     n = 40 if tier == "quick" else 800
+    n_many = 6 if tier == "quick" else 80
+    rb = rng("c03-foreach-many")
+    shrunk = []
     rank = {"ok": 2, "skip": 1, "depSkip": 0, "retry": 3, "perm": 4}
     cls_name = {"perm": "permFail"}
-    for _ in range(n):
-        items = gen_items()
+    for round_no in range(n + n_many):
+        many = round_no >= n
+        items = gen_many_items(rb) if many else gen_items()
         if len(items) < 2:
             continue
+        if many:
+            ck.count("foreach-items-pass:dozens-of-items")
         shuffled = list(items)
-        r.shuffle(shuffled)
+        (rb if many else r).shuffle(shuffled)
         try:
             got = ku.run(one_pass(items))
             got_p = ku.run(one_pass(shuffled))
@@ -388,6 +452,20 @@ def foreach_items_clause(ck, r, tier):
             bad = "the message of an item of the winning class is missing from the combined outcome"
         elif got_p["c"] != got["c"] or got_p.get("delay") != got.get("delay"):
             bad = "class / delay of the combined outcome depends on the order of the items"
+        elif top in ("retry", "perm") and any(it["msg"] not in (got_p.get("msg") or "") for it in winners):
+            bad = ("with the items in another order the message of an item of the winning class is missing from "
+                   "the combined outcome")
+        if bad and many and not shrunk:
+            shrunk.append(1)   # one shrunk witness is enough (each probe is two reconciliations)
+            # shrink: the fewest items (order kept) for which a winning-class message is still lost
+            def lost(sub):
+                tops = [it for it in sub if it["kind"] == top]
+                o = ku.run(one_pass(sub))
+                return o["c"] != want or any(it["msg"] not in (o.get("msg") or "") for it in tops)
+            src = items if lost(items) else shuffled
+            if lost(src):
+                small = ddmin(src, lost)
+                case = {"items": small, "workflow_outcome": ku.run(one_pass(small))}
         if bad:
             ck.violate(case, bad)
 
@@ -521,6 +599,27 @@ def prepare_clause(ck, r, tier):
     ku.run(body())
 
 
+def replay_corpus(ck, result):
+    """corpus/C03/*.json: {"cases": [{"op": "combine" | "unwrapped", "seq": [outcome, ...]}]} — the oracle's clauses
+    on each sequence and on its reverse"""
+    from common import VERIF
+    for f in sorted((VERIF / "corpus" / "C03").glob("*.json")):
+        for case in json.load(open(f)).get("cases", []):
+            kind, seq = case["op"], case["seq"]
+            u = kind == "unwrapped"
+            for order, xs in (("as filed", seq), ("reversed", seq[::-1])):
+                ck.evaluated()
+                ck.count("corpus")
+                try:
+                    got = impl_unwrapped(xs, result) if u else impl_combine(xs, result)
+                    bad = oracle(xs, got, u)
+                except Exception as e:
+                    got, bad = None, f"combine raised {e!r}"
+                if bad:
+                    ck.violate({"op": kind, "seq": xs, "impl": got, "corpus": f.name, "order": order}, bad)
+                    break
+
+
 def run(tier: str) -> int:
     from koreo import result
 
@@ -536,6 +635,8 @@ def run(tier: str) -> int:
                       "Ok values are JSON values with floats restricted to multiples of 1/8"]
     ck.prove(extractors=["ResultTable"])
 
+    replay_corpus(ck, result)
+
     r = rng("c03")
     n = 4000 if tier == "quick" else 150000
     drv = LeanDriver("C03")
@@ -545,6 +646,15 @@ def run(tier: str) -> int:
         kind = "unwrapped" if r.random() < 0.3 else "combine"
         perm = list(seq)
         r.shuffle(perm)
+        cases.append((kind, seq, perm))
+    # many / long messages (the aggregation of a large forEach, long error texts); its own stream, so the
+    # cases above are the same as before this dimension existed
+    rl = rng("c03-long")
+    for i in range(250 if tier == "quick" else 6000):
+        seq = gen_long_seq(rl)
+        kind = "unwrapped" if rl.random() < 0.3 else "combine"
+        perm = list(seq)
+        rl.shuffle(perm)
         cases.append((kind, seq, perm))
     reqs = [{"op": k, "xs": [to_req(o) if not (k == "unwrapped" and o["c"] == "ok")
                                else {"c": "val", "v": to_wire(o["v"])} for o in seq]} for k, seq, _ in cases]
@@ -567,7 +677,10 @@ def run(tier: str) -> int:
             ck.violate({"kind": kind, "seq": seq}, f"combine raised {e!r}")
             continue
         ck.count(f"class:{got['c']}")
-        ck.count(f"len:{len(seq)}")
+        ck.count(f"len:{len(seq)}" if len(seq) <= 12 else f"len:{size_bucket(len(seq))}")
+        if got["c"] in ("retry", "permFail"):
+            ck.count("winning-messages-joined-chars:" + size_bucket(
+                len(truthy_join(o["m"] for o in seq if o["c"] == got["c"]))))
         ck.count(f"op:{kind}")
         classes = {o["c"] for o in seq}
         if len(classes) >= 2:
@@ -580,10 +693,19 @@ def run(tier: str) -> int:
             bad = f"class changes under permutation: {got['c']} vs {got_p['c']}"
         if bad is None and got["c"] == "retry" and got_p.get("d") != got.get("d"):
             bad = "Retry delay changes under permutation"
+        if bad is None and oracle(perm, got_p, u) is not None:
+            # the permuted sequence is a sequence too: every clause holds for it as well (which messages
+            # survive must not depend on where they stand)
+            bad = "for a permutation of the sequence: " + oracle(perm, got_p, u)
         if bad is not None:
             def fails(sub, kind=kind, u=u):
                 return oracle(sub, impl(kind, sub), u) is not None
-            small = ddmin(seq, fails) if oracle(seq, got, u) else seq
+            if oracle(seq, got, u):
+                small = ddmin(seq, fails)
+            elif oracle(perm, got_p, u):
+                small = ddmin(perm, fails)
+            else:
+                small = seq
             ck.violate({"op": kind, "seq": small, "impl": impl(kind, small)}, bad)
         elif seq:
             perm_idx = list(range(len(seq)))
@@ -634,7 +756,10 @@ def run(tier: str) -> int:
              "locations, JSON values, delays incl. 0/equal/negative) each with a random permutation, through "
              "combine and unwrapped_combine; non-trivial = at least two distinct classes present; distinct by "
              "operation+sequence; plus generated workflows through the real reconcile_workflow with every API-call "
-             "index as a crash point (overall outcome vs the conditions' classes)",
+             "index as a crash point (overall outcome vs the conditions' classes); plus (own stream) sequences of "
+             "2-100 outcomes with distinct messages of 4-900 characters, mostly of one error class, and forEach "
+             "steps over 12-48 items with a sentence-long message each (every winning-class message kept, in the "
+             "given and in a shuffled order); corpus/C03 replayed first",
     )
 
 
